@@ -62,7 +62,7 @@ func genCase(t *rapid.T) Case {
 		max = 20
 		steps = 24
 	}
-	o := gen.DAGOpts{MaxNodes: max, Referrers: true, NoBigBlobs: true, NoAbsent: true, SingleMT: true}
+	o := gen.DAGOpts{MaxNodes: max, Referrers: true, NoBigBlobs: true, NoAbsent: true, SingleMT: rapid.IntRange(0, 2).Draw(t, "singleMT") != 0}
 	c := Case{Specs: gen.Specs(t, o), AutoGC: rapid.IntRange(0, 3).Draw(t, "autoGC") != 0}
 	d := gen.Build(c.Specs)
 	ids := d.CanonIDs()
@@ -175,6 +175,63 @@ func runCase(c Case) (res vt.Result, fail *vt.Fail) {
 		strays[st] = true
 	}
 	classes := map[string]bool{}
+	// The same bytes under two media types: oras-go's graph is keyed by (media type,
+	// digest, size) while the layout stores one file per digest, and the statement's
+	// "node" is ambiguous there. For such DAGs only the harm the statement clearly
+	// forbids is judged (see reducedCheck); the exact-set oracle needs one media
+	// type per digest.
+	aliased := false
+	for _, id := range d.CanonIDs() {
+		if d.Nodes[id].DCanon != id {
+			aliased = true
+		}
+	}
+	if aliased {
+		classes["same-bytes-two-media-types(reduced-oracle)"] = true
+	}
+	existsSet := func() map[int]bool {
+		out := map[int]bool{}
+		for _, id := range d.CanonIDs() {
+			if ok, err := s.Exists(ctx, d.Nodes[id].Desc); err == nil && ok {
+				out[id] = true
+			}
+		}
+		return out
+	}
+	// reducedCheck: after a Delete/GC no surviving stored manifest may have lost a
+	// successor that was present before, and every tag whose target still exists
+	// must still resolve to it.
+	reducedCheck := func(before map[int]bool, tagsBefore map[string]int, target int, when string) *vt.Fail {
+		after := existsSet()
+		for id := range after {
+			if !d.IsManifest(id) {
+				continue
+			}
+			for _, e := range d.Nodes[id].Edges {
+				if target >= 0 && d.Nodes[e.To].DCanon == d.Nodes[target].DCanon {
+					continue // the content the caller asked to delete
+				}
+				if subj, ok := subjectOf(d, e.To); ok && d.IsManifest(e.To) && !after[subj] {
+					// a referrer whose subject was removed, listed by a surviving
+					// node: the two halves of the statement disagree - not judged
+					continue
+				}
+				if before[e.To] && !after[e.To] {
+					return vt.Failf("C09/live-successor-removed", "%s: manifest %d survives but its %s successor %d (present before) was removed", when, id, e.Role, e.To)
+				}
+			}
+		}
+		for ref, id := range tagsBefore {
+			if !after[id] {
+				continue
+			}
+			desc, err := s.Resolve(ctx, ref)
+			if err != nil || desc.Digest != d.Nodes[id].Desc.Digest {
+				return vt.Failf("C09/surviving-node-lost-tag", "%s: tag %q of surviving node %d no longer resolves to it (%v)", when, ref, id, err)
+			}
+		}
+		return nil
+	}
 	if len(c.Strays) > 0 {
 		classes["stray-files"] = true
 	}
@@ -197,10 +254,14 @@ func runCase(c Case) (res vt.Result, fail *vt.Fail) {
 	}
 
 	for i, op := range c.Ops {
+		// operations address content through the first descriptor generated for its
+		// digest; aliases (same bytes under another media type) only occur as
+		// descriptors embedded in manifests, which is how they arise in practice
+		op.N = d.Nodes[d.Nodes[op.N].Canon].DCanon
 		when := fmt.Sprintf("after step %d (%s n=%d ref=%q)", i, op.Op, op.N, op.Ref)
 		switch op.Op {
 		case "push":
-			if m.Stored[op.N] {
+			if m.Has(op.N) {
 				continue
 			}
 			if err := gen.PushNode(ctx, s, d.Nodes[op.N]); err != nil {
@@ -208,10 +269,10 @@ func runCase(c Case) (res vt.Result, fail *vt.Fail) {
 			}
 			m.Push(op.N)
 		case "tag":
-			if !m.Stored[op.N] {
+			if !m.Has(op.N) {
 				continue
 			}
-			if old, ok := m.Tags[op.Ref]; ok && old != op.N {
+			if old, ok := m.Tags[op.Ref]; ok && d.Nodes[old].Desc.Digest != d.Nodes[op.N].Desc.Digest {
 				movedTag = true
 			}
 			if err := s.Tag(ctx, d.Nodes[op.N].Desc, op.Ref); err != nil {
@@ -238,7 +299,7 @@ func runCase(c Case) (res vt.Result, fail *vt.Fail) {
 			s = s2
 			classes["reopen"] = true
 		case "delete":
-			if !m.Stored[op.N] {
+			if !m.Has(op.N) {
 				// deleting absent content must fail and change nothing
 				var derr error
 				fin, dump := vt.Watch(watchdog, func() { derr = s.Delete(ctx, d.Nodes[op.N].Desc) })
@@ -250,6 +311,30 @@ func runCase(c Case) (res vt.Result, fail *vt.Fail) {
 				}
 				classes["delete-absent"] = true
 				break
+			}
+			if aliased {
+				beforeSet := existsSet()
+				tagsBefore := map[string]int{}
+				for r, id := range m.Tags {
+					if id != m.D.Nodes[op.N].DCanon {
+						tagsBefore[r] = id
+					}
+				}
+				var derr error
+				fin, dump := vt.Watch(watchdog, func() { derr = s.Delete(ctx, d.Nodes[op.N].Desc) })
+				if !fin {
+					vt.ReportHang("main", js(), vt.Failf("C09/delete-hang", "%s: Delete did not return", when), dump)
+				}
+				if derr != nil {
+					return res, vt.Failf("C09/delete-failed", "%s: Delete of stored node %d: %v", when, op.N, derr)
+				}
+				if f := reducedCheck(beforeSet, tagsBefore, op.N, when); f != nil {
+					res.Classes = keys(classes)
+					return res, f
+				}
+				// the exact outcome is not modelled: stop the history here
+				res.Classes = keys(classes)
+				return res, nil
 			}
 			before := len(m.Stored)
 			judged := true
@@ -285,6 +370,34 @@ func runCase(c Case) (res vt.Result, fail *vt.Fail) {
 				classes["delete-after-moved-tag"] = true
 			}
 		case "gc":
+			if aliased {
+				beforeSet := existsSet()
+				tagsBefore := map[string]int{}
+				for r, id := range m.Tags {
+					tagsBefore[r] = id
+				}
+				var gerr error
+				fin, dump := vt.Watch(watchdog, func() { gerr = s.GC(ctx) })
+				if !fin {
+					vt.ReportHang("main", js(), vt.Failf("C09/gc-hang", "%s: GC did not return", when), dump)
+				}
+				if gerr != nil {
+					return res, vt.Failf("C09/gc-failed", "%s: GC: %v", when, gerr)
+				}
+				// tagged nodes are live: they and everything they reach must survive
+				after := existsSet()
+				for _, id := range tagsBefore {
+					if beforeSet[id] && !after[id] {
+						return res, vt.Failf("C09/gc-removed-tagged-node", "%s: GC removed tagged node %d", when, id)
+					}
+				}
+				if f := reducedCheck(beforeSet, tagsBefore, -1, when); f != nil {
+					res.Classes = keys(classes)
+					return res, f
+				}
+				res.Classes = keys(classes)
+				return res, nil
+			}
 			if m.GCWouldBeUnjudged() {
 				classes["stopped-at-unjudged-gc"] = true
 				res.Classes = keys(classes)
@@ -311,7 +424,7 @@ func runCase(c Case) (res vt.Result, fail *vt.Fail) {
 			}
 			classes["gc"] = true
 		}
-		if op.Op == "delete" || op.Op == "gc" || op.Op == "reopen" || i == len(c.Ops)-1 {
+		if !aliased && (op.Op == "delete" || op.Op == "gc" || op.Op == "reopen" || i == len(c.Ops)-1) {
 			if f := checkAll(when); f != nil {
 				res.Classes = keys(classes)
 				return res, f
